@@ -17,6 +17,7 @@ Variable rules : key -> rule.
 Variable env : key -> N.
 Variable F : key -> N -> list value -> list N -> N -> N.
 Variable rank : key -> nat.
+Variable R : key -> N -> rule.
 Hypothesis Hrank : wf_rank rules rank.
 Hypothesis Hdisc : forall k, r_disc (rules k) = [].
 Notation cvK := (cvK rules env F rank).
@@ -26,9 +27,9 @@ Notation n2 := (n2 rules).
 Notation key_of_slot := (key_of_slot rules env F rank).
 Notation task_ok2 := (task_ok2 rules env F rank).
 Notation BT := (BT rules env F rank).
-Notation BC := (BC rules F).
-Notation BS := (BS rules env F rank).
-Notation BInv := (BInv rules env F rank).
+Notation BC := (BC rules F R).
+Notation BS := (BS rules env F rank R).
+Notation BInv := (BInv rules env F rank R).
 Notation delivered := (delivered rules env F rank).
 
 (* the part of the task record of the requester that the delivery does not touch *)
@@ -240,9 +241,9 @@ Proof.
     + destruct T7 as [H|[(k & H)|[H|H]]]; [left; rewrite D8; apply in_or_app; now left|right; left; exists k; now rewrite D2| |].
       * right. right. left. now rewrite (in_progress_of_kind s s' root (HK root)).
       * right. right. right. now apply Hcurk.
-  - apply (BC_change rules F (fun _ => false) s s'); auto; try discriminate; [intros k; rewrite D2; apply HC|].
+  - apply (BC_change rules F R (fun _ => false) s s'); auto; try discriminate; [intros k; rewrite D2; apply HC|].
     intros y (r & Hu' & H1' & H2'). left. exists r. split; auto.
-  - apply (BS_change rules env F rank (fun _ => false) x s s'); auto; try discriminate.
+  - apply (BS_change rules env F R rank (fun _ => false) x s s'); auto; try discriminate.
     + intros y [H|[(k & H)|(t0 & z & Hz & H)]]; [left; congruence|right; left; exists k; now rewrite <- D2|right; right].
       destruct (N.eq_dec t0 t) as [->|Hn0].
       * rewrite D4 in Hz. inversion Hz. subst z. exists t, ti. split; auto. now rewrite <- Edef.
@@ -304,9 +305,9 @@ Proof.
       * rewrite Hft, E3, E5. exact J10.
       * rewrite Hft, HR. exact J11.
     + rewrite Hi, (in_progress_of_kind s s' root (HK root)). destruct T7 as [H|[(k & H)|[H|H]]]; auto; [right; left; exists k; now rewrite HR0|right; right; right; now apply Hcurk].
-  - apply (BC_change rules F (fun _ => false) s s'); auto; try discriminate; [intros k; rewrite HR0; apply HC|].
+  - apply (BC_change rules F R (fun _ => false) s s'); auto; try discriminate; [intros k; rewrite HR0; apply HC|].
     intros y (r & Hu' & H1' & H2'). left. exists r. split; auto. now apply HU.
-  - apply (BS_change rules env F rank (fun _ => false) x s s'); auto; try discriminate.
+  - apply (BS_change rules env F R rank (fun _ => false) x s s'); auto; try discriminate.
     + intros y [H|[(k & H)|(t0 & z & Hz & H)]]; [left; congruence|right; left; exists k; now rewrite <- HR0|right; right].
       destruct (Hbw t0 z Hz) as (w & Hw & _ & _ & _ & _ & _ & Hd). exists t0, w. split; auto. now rewrite <- Hd.
     + intros k _. now rewrite HR0.
